@@ -58,6 +58,49 @@ func checkC12(r *core.Run) {
 	c12Sort(r, p)
 	c12Admit(r, p)
 	c12Closure(r, p)
+	c12PkgCache(r, p)
+}
+
+// c12PkgCache: the fee packages are a cache over the pool. While no listing was requested for a while the
+// incremental updates are suspended; both update functions must then mark the cache stale before returning
+// (otherwise the next listing is built from packages that still contain removed transactions - with a
+// replacement it lists both spenders of one output). More generally every return of the two functions that
+// happens before the packages were brought up to date is preceded by the stale mark.
+func c12PkgCache(r *core.Run, p *core.Program) {
+	const rule = "R-C12-sort"
+	for _, n := range []string{"addToPackages", "delFromPackages"} {
+		fn := p.Func("client/txpool.(*OneTxToSend)." + n)
+		if fn == nil {
+			r.Fail(rule, "packages-stale-mark/"+n, "-", "function not found")
+			continue
+		}
+		found, okMark := false, true
+		for _, b := range fn.Blocks {
+			iff, ok := b.Instrs[len(b.Instrs)-1].(*ssa.If)
+			if !ok || !strings.Contains(an.Expr(iff.Cond), "client/txpool.LastSortingDone") {
+				continue
+			}
+			found = true
+			// the suspended outcome: follow the straight line to the return
+			x := b.Succs[0]
+			marked := false
+			for k := 0; k < 6 && x != nil; k++ {
+				for _, ins := range x.Instrs {
+					if st, ok := ins.(*ssa.Store); ok && an.Expr(st.Addr) == "&client/txpool.FeePackagesDirty" && an.Expr(st.Val) == "true" {
+						marked = true
+					}
+				}
+				if _, isRet := x.Instrs[len(x.Instrs)-1].(*ssa.Return); isRet || len(x.Succs) != 1 {
+					break
+				}
+				x = x.Succs[0]
+			}
+			if !marked {
+				okMark = false
+			}
+		}
+		r.Check(found && okMark, rule, "packages-stale-mark/"+n, p.Pos(fn.Pos()), "when incremental updates are suspended the cache is marked stale before returning", n+" returns in suspended mode without marking the fee packages stale")
+	}
 }
 
 // c12Closure: GetAllChildren is a worklist traversal; it is complete only if the walk ends when the cursor
